@@ -104,6 +104,22 @@ def gD18 : AGrammar := [
 theorem C07_D18_false_rejection_through_recovery :
     verdictOf cfgNow gD18 ["A"] = some (.ok true) ∧ Spec.leftRec gD18 = false := by decide
 
+/-- **finding D37** (round 21 side observation, reproduced with the real tool): the marks can be INCOMPLETE without the verdict being wrong.
+    `A <- Z C 'a' / 'q'; Z <- A 'y' / ""; C <- A 'z' / 'c'` - `Z` is nullable, so `A` can reach `C` at its own start position and
+    `C` reaches `A`: all three rules lie on same-position cycles. The last traversal that reaches the reference to `Z` in `A`'s body is
+    the top-level visit of `Z` (sorted order A, C, Z), during which `Z` is on the visiting stack and counts as non-nullable: the flag is
+    overwritten with `false`, `InitialNames` stops at `Z`, the edge `A -> C` is lost and `C` is NOT marked left-recursive. The verdict
+    (left recursion, leader `A`) is right; but a parser generated with `-support-left-recursion` memoizes the unmarked `C` under
+    `Memoize(true)` and returns another result than without (C08 / C06; the runtime witness is the listed twin pair). -/
+def gD37 : AGrammar := [
+  { name := "A", expr := .choice false [.seq false [.ref false "Z", .ref false "C", .lit false], .lit false] },
+  { name := "Z", expr := .choice false [.seq false [.ref false "A", .lit false], .lit true] },
+  { name := "C", expr := .choice false [.seq false [.ref false "A", .lit false], .lit false] }]
+theorem C07_D37_rule_on_a_cycle_is_not_marked :
+    (prepare cfgNow gD37 ["A", "C", "Z"]).map (fun r => (r.1.map (fun x => (x.name, x.leftRecursive, x.leader)), r.2)) =
+      some ([("A", true, true), ("Z", true, false), ("C", false, false)], .ok true) ∧
+    (reachFrom (Spec.specGraph gD37) "C").contains "C" = true := by decide
+
 /-- direct left recursion is detected whatever follows: for `A <- A e / f` the rule's initial names
     contain `A` (a self-loop in the first graph), for every `e`, `f`, every flag assignment and
     every configuration of the analysis -/
